@@ -12,6 +12,11 @@ Line protocol of the C04 model driver (one output line per input line):
   islocked <p>              -> true|false|hang
   call <p> b|n              -> ran <count>|locked|hang     (b = blocking proxy, n = rpc_nonblocking + wait)
   burn <ctxidx>             -> ok                (make_unique_token() used up for another object)
+  lockretry <p> -|=<custom> <timeout_ms> <release_ms> <q>
+                            -> <result> <requests sent>   (lock(timeout>0) with a 100 ms period while proxy q calls
+                               unlock() after release_ms; release_ms must not be a multiple of 100)
+  recreate                  -> ok                (object removed and created again under the same name)
+  stopctx <ctxidx>          -> ok                (client context stopped)
   tok <p>                   -> <tok> <nbtok>     (the proxy's two remembered tokens, `-` or ctx/token)
   owner                     -> - | ctx/token     (`_locking_token`)
   counter <ctxidx>          -> <n>
@@ -79,6 +84,17 @@ def stepLine (s : Sys) (line : String) : Sys × String :=
     | some p, "b" => doOp s (.call p false)
     | some p, "n" => doOp s (.call p true)
     | _, _ => (s, "bad-op")
+  | ["lockretry", p, t, tmo, rel, q] =>
+    match p.toNat?, parseCustom t, tmo.toNat?, rel.toNat?, q.toNat? with
+    | some p, some c, some tmo, some rel, some q =>
+      let k := iters tmo 100 (fun _ => 0) (tmo + 1) 0 0
+      let j := rel / 100 + 1
+      let envs : List (List Op) := (List.range k).map (fun i => if i + 1 = j then [Op.unlock q none] else [])
+      let r := proxyLockRetry s p c envs
+      (r.1, showOut r.2.1 ++ " " ++ toString r.2.2)
+    | _, _, _, _, _ => (s, "bad-op")
+  | ["recreate"] => doOp s .recreate
+  | ["stopctx", c] => match c.toNat? with | some c => doOp s (.stopCtx c) | none => (s, "bad-op")
   | ["burn", c] => match c.toNat? with | some c => doOp s (.burn c) | none => (s, "bad-op")
   | ["tok", p] =>
     match p.toNat? with
